@@ -272,10 +272,7 @@ func init() {
 				}
 				got := pub.FetchUserInput(string(nb))
 				ms := int(time.Since(t0) / time.Millisecond)
-				kind := "item"
-				if _, bad := got.(*pub.Failure); bad {
-					kind = "failure"
-				}
+				kind := pub.VerifProvenance(got)
 				out = putText(append(out, 0, ms, 3), kind)
 				out = append(out, 0)
 			case 6:
